@@ -23,6 +23,13 @@ class SubVar(puan.variable):
     pass
 
 
+class ItemVar(puan.variable):
+    """… and one with a constructor signature of its own (like `Fruit(size)` in the repository's tests): code that
+    re-creates a leaf through `self.__class__(id, bounds)` cannot do so for this class"""
+    def __init__(self, name, lo=0, hi=1):
+        super().__init__(id=name, bounds=(lo, hi))
+
+
 def build(ast, memo=None):
     memo = {} if memo is None else memo
     k = ast.get("$k")
@@ -37,6 +44,8 @@ def build(ast, memo=None):
 def _build(a, memo):
     c = a["c"]
     if c == "var":
+        if a.get("$sub") == "ctor":
+            return ItemVar(a["id"], a["lo"], a["hi"])
         if a.get("$sub"):
             return SubVar(a["id"], (a["lo"], a["hi"]))
         return puan.variable(a["id"], (a["lo"], a["hi"]))
@@ -141,7 +150,7 @@ def core(n):
     return ("node", n["id"], n["lo"], n["hi"], n["s"], n["v"], tuple(core(k) for k in n["kids"]))
 
 
-def well_formed(t):
+def well_formed(t, allow_empty=False):
     """independent validity check used to keep the valid stream valid:
     single definition per id (structurally), no duplicate child id, no leaf sharing an id
     with a compound (reference-free), acyclic by construction of a finite tree with single defs"""
@@ -153,7 +162,7 @@ def well_formed(t):
         defs[n["id"]] = c
         if n["k"] == "node":
             ids = [k["id"] for k in n["kids"]]
-            if len(ids) != len(set(ids)) or n["id"] in ids or not ids:
+            if len(ids) != len(set(ids)) or n["id"] in ids or (not ids and not allow_empty):
                 return False
     return True
 
@@ -195,6 +204,7 @@ def tags_of(t):
             if n["hi"] - n["lo"] > 1000: tg.add("int16-leaf")
             continue
         ks = n["kids"]
+        if not ks: tg.add("childless-compound")
         nl = sum(k["k"] == "leaf" for k in ks)
         if 0 < nl < len(ks): tg.add("mixed-node")
         if n["s"] == -1 and nl < len(ks): tg.add("neg-parent-over-compound")
@@ -260,13 +270,14 @@ CLASSES = ["All", "Any", "AtLeast", "AtLeastS", "AtMost", "Xor", "ExactlyOne", "
 
 class TreeGen:
     def __init__(self, rng, n_leaves=4, max_depth=3, int_p=0.3, wide_p=0.08, classes=None, explicit_p=0.5,
-                 bool_only=False, max_arity=4, prefix_p=0.0, str_p=0.3, share=True):
+                 bool_only=False, max_arity=4, prefix_p=0.0, str_p=0.3, share=True, empty_p=0.0):
         self.rng = rng
         self.max_depth = max_depth
         self.classes = classes or CLASSES
         self.explicit_p = explicit_p
         self.max_arity = max_arity
         self.prefix_p = prefix_p
+        self.empty_p = empty_p
         self.str_p = str_p
         self.share = share
         self.k = 0
@@ -293,7 +304,8 @@ class TreeGen:
         if (lo, hi) == (0, 1) and self.rng.random() < self.str_p:
             return {"c": "str", "id": n}
         if self.rng.random() < 0.15:
-            return {"c": "var", "id": n, "lo": lo, "hi": hi, "$sub": True}      # an instance of a variable subclass
+            # an instance of a variable subclass (every other name: one with its own constructor signature)
+            return {"c": "var", "id": n, "lo": lo, "hi": hi, "$sub": "ctor" if ord(n[-1]) % 2 else True}
         return {"c": "var", "id": n, "lo": lo, "hi": hi}
 
     def obj_id(self, ast):
@@ -312,6 +324,8 @@ class TreeGen:
             return a
         kind = rng.choice(self.classes)
         n_args = 1 if kind == "Not" else 2 if kind == "Imply" else rng.randint(1, self.max_arity)
+        if self.empty_p and kind in ("All", "Any", "AtLeast", "AtLeastS", "AtMost") and rng.random() < self.empty_p:
+            n_args = 0          # a compound without sub-propositions: the empty sum against its threshold
         args, seen = [], set()
         for _ in range(n_args):
             a = self.node(depth - 1) if depth > 1 and rng.random() < 0.55 else self.leaf()
@@ -391,6 +405,45 @@ class TreeGen:
             if not isinstance(o, str) and not is_var(o):
                 return a, o
         raise RuntimeError("generator produced no compound model")
+
+
+def gen_signed_sum(rng):
+    """an AtLeast with an EXPLICIT sign (either one) and a threshold of either sign over integer leaves whose bounds
+    straddle zero (so that the signed sum can fall short of, reach or exceed a non-positive threshold), below an
+    All / Any / Imply parent — value <= 0 with sign +1 and value > 0 with sign -1 are legal only with the sign spelled out"""
+    names = list("abcd"); rng.shuffle(names)
+    leaves = []
+    for _ in range(rng.randint(1, 3)):
+        lo = rng.randint(-3, 0); hi = rng.randint(max(lo, 0), 3)
+        if rng.random() < 0.25: lo, hi = 0, 1
+        leaves.append({"c": "var", "id": names.pop(), "lo": lo, "hi": hi})
+    sign = rng.choice([1, 1, -1])
+    inner = {"c": "AtLeast", "v": rng.randint(-4, 1) if sign == 1 else rng.randint(-2, 3), "args": leaves, "sign": sign}
+    if rng.random() < 0.6: inner["id"] = "P"
+    r = rng.random()
+    z = {"c": "str", "id": "z"}
+    if r < 0.35: a = {"c": "All", "args": [inner, z]}
+    elif r < 0.6: a = {"c": "Any", "args": [inner, z]}
+    elif r < 0.75: a = {"c": "Imply", "cond": inner, "cons": z}
+    elif r < 0.85: a = {"c": "AtMost", "v": 1, "args": [inner, z]}
+    else: a = inner
+    if a is not inner and rng.random() < 0.6: a["id"] = "A"
+    return a
+
+
+def gen_valid_signed_sum(rng):
+    for _ in range(50):
+        a = gen_signed_sum(rng)
+        try:
+            o = build(a)
+        except Exception:
+            continue
+        if is_var(o) or o.errors():
+            continue
+        t = snap(o)
+        if well_formed(t):
+            return a, o, t
+    raise RuntimeError("no signed-sum model generated")
 
 
 def with_leaf_bounds(a, leaf_id, lo, hi):
@@ -480,7 +533,7 @@ def gen_valid(rng, quick=True, twins=True, **kw):
         except Exception:
             continue
         t = snap(o)
-        if not well_formed(t):
+        if not well_formed(t, allow_empty=bool(kw.get("empty_p"))):
             continue
         if o.errors():
             continue
